@@ -328,7 +328,7 @@ def run(ck, pg, np, pd, models, c01, c02, c03, PST, LST, MST, domain_values, cal
                 if s_ != "ok" or not math.isfinite(float(np.asarray(v).ravel()[0])):
                     tols.append(None)
                 elif name in QUAD_INV:
-                    tols.append(None if L.quad_degenerate(name, par) else 1e-6)
+                    tols.append(1e-6)
                 elif not closed:
                     tols.append(1e-3)
                 else:
